@@ -72,6 +72,7 @@ func main() {
 		toks := strings.Fields(line)
 		if toks[0] == "cfg" {
 			if s != nil {
+				reportLeaks(s)
 				s.close()
 			}
 			_, opts := parseOpts(toks[1:])
@@ -109,7 +110,17 @@ func main() {
 		emit("%s", safeDo(s, toks))
 	}
 	if s != nil {
+		reportLeaks(s)
 		s.close()
+	}
+}
+
+// reportLeaks prints one extra line when the suite knows of write batches that were begun and abandoned (see ctl.begun)
+func reportLeaks(s suite) {
+	if l, ok := s.(interface{ leaks() string }); ok {
+		if msg := l.leaks(); msg != "" {
+			emit("%s", msg)
+		}
 	}
 }
 
